@@ -17,7 +17,7 @@ RULE = ("cases = overbook simulations with overcommit: 1..3 pools of 1..10 CPUs,
 ASSUMPTIONS = ["'ready' = assignable (pending or failed) with all parents completed", "failures are counted per pipeline from the reported failure results"]
 NSHARDS = {"quick": 16, "thorough": 16}
 N = {"quick": 60, "thorough": 4000}
-REQUIRE = {"overbook_assignments": 5000, "triggered_rounds": 3000, "rounds_with_full_cpus": 500, "pipelines_abandoned": 100,
+REQUIRE = {"scale:run_with_more_than_512_pipelines": 1, "overbook_assignments": 5000, "triggered_rounds": 3000, "rounds_with_full_cpus": 500, "pipelines_abandoned": 100,
            "ticks_with_ram_overbooked": 1000, "sim_runs": 500}
 
 
